@@ -92,7 +92,8 @@ def gen_history(rng, net, length, ops=PUBLIC_OPS, allow=None):
         elif k == "stats":
             op["which"] = rng.choice(["contract_stats", "total_flops", "total_write", "max_size",
                                       "peak_size", "force", "get_path", "combo", "has_pre",
-                                      "logs", "peak_order", "total_cost", "arithmetic_intensity"])
+                                      "logs", "peak_order", "total_cost", "arithmetic_intensity",
+                                      "recipes", "recipes"])
         hist.append(op)
     return hist
 
@@ -321,6 +322,16 @@ def _apply_op(tree, net, op):
             tree.total_cost(factor=rng.choice([1, 64, 256]))
         elif w == "arithmetic_intensity":
             tree.arithmetic_intensity()
+        elif w == "recipes":
+            # what print_contractions() / a direct make_contractor do: fill the per-node contraction recipes
+            # through the getters, without compiling (and caching) a contractor
+            for p_, l_, r_ in tree.traverse():
+                tree.get_inds(p_)
+                if tree.get_can_dot(p_):
+                    tree.get_tensordot_axes(p_)
+                    tree.get_tensordot_perm(p_)
+                else:
+                    tree.get_einsum_eq(p_)
         return tree, []
     if k == "manual":
         # a hand-made subtree reconfiguration out of the primitives, along a random path
